@@ -55,7 +55,14 @@ func hostileALPN(r *kernel.Run, srv *World, registered *Ident) ([]string, string
 	b64 := func(b []byte) string { return base64.RawStdEncoding.EncodeToString(b) }
 	var list []string
 	class := ""
-	switch tp.Draw(12) {
+	switch tp.Draw(13) {
+	case 12:
+		// an otherwise valid fetch request whose certificate key is labelled Ed25519 but is a key of another algorithm
+		_, info := BuildFetch(HonestSpec(NewIdent("f")))
+		info.CertificatePublicKeyPkix = foreignAlgorithmPkix(tp.Draw(2))
+		ib, _ := proto.Marshal(info)
+		b, _ := proto.Marshal(&types.FetchNodeCredentialsRequest{Bundle: ib, BundleSignature: tp.Bytes(64)})
+		list, class = chunkALPN(nodeenrollment.FetchNodeCredsNextProtoV1Prefix, b64(b)), "fetch-with-key-of-other-algorithm"
 	case 0:
 		list, class = []string{prefix}, "prefix-only"
 	case 1:
